@@ -365,7 +365,7 @@ def run_enum1(spec, acc):
     solo(b, 1)
     per = spec.get('per_pair')
     if per is not None and a == 'P5' and b == 'P5':
-      per *= 4      # first-time lookups in shared caches: the windows are a few lines wide
+      per = 700     # first-time lookups in shared caches: windows a few lines wide - a dense grid
     if per is None or per >= na:
       points = range(1, na + 1)
     else:
